@@ -27,6 +27,7 @@ func rulesC04(c *Ctx) {
 	ruleUint128Sites(c)
 	ruleRunElectionTable(c)
 	ruleStoreClientElectionID(c)
+	ruleStateWriters(c, append(append([]writerRow{}, writersServerElection...), writersServerSession...)) // what the gate compares is written only by the election and the session bookkeeping
 	ruleIsNewMaster(c, "C04")
 }
 
